@@ -28,7 +28,8 @@ CONSTANTS MaxMsgs,          \* messages / events per history
           MaxRestarts, MaxFaults, MaxCrashes,
           FixCpFloor,       \* reorg floor uses the checkpoint AT the tip height too
           FixListReset,     \* header list re-anchored on the stored tip on early returns
-          FixFilterTip      \* rollBackToHeight lowers the in-memory filter tip
+          FixFilterTip,     \* rollBackToHeight lowers the in-memory filter tip
+          FixTipPublish     \* handleHeadersMsg publishes the stored tip (not the message's last header)
 
 VARIABLES bfile, bidx, btip,      \* block-header store: file, index (id+1 -> height), tip key
           ffile, ftip,            \* filter-header store: file (by block id), tip key (block id)
@@ -265,7 +266,8 @@ HandleHeaders0(w, p, b, failWrite) ==
            ELSE IF failWrite /\ r.wb # <<>> THEN r.w      \* "Unable to write block headers": return
            ELSE LET w1 == WriteB(r.w, r.wb)
                     w2 == IF r.recv THEN [w1 EXCEPT !.nextCp = FindNextCp(r.fin)] ELSE w1
-                IN  [w2 EXCEPT !.hTip = r.fin]
+                    t  == BTip(w2)
+                IN  [w2 EXCEPT !.hTip = IF FixTipPublish /\ t[1] # ERR THEN t[2] ELSE r.fin]
 
 HandleHeaders(w, p, b, failWrite) ==
   IF b = <<>> THEN w
